@@ -269,7 +269,26 @@ func (s *clientSocket) finishUpgradeTo(t ClientTransport, c *transport.Callbacks
 		return
 	}
 
-	c.Set(s.onPacket, s.onTransportClose)
+	// A poll of the old transport may still be in flight, and the server may have answered it
+	// with packets it sent before it switched transports. Hold back what arrives over the new
+	// transport until the old one has delivered everything it received. Otherwise the two
+	// transports deliver concurrently: packets get reordered, and the frames of a binary
+	// packet get mixed with those of another one.
+	onPacket := s.onPacket
+	s.transportMu.RLock()
+	draining, ok := s.transport.(interface{ Done() <-chan struct{} })
+	s.transportMu.RUnlock()
+	if ok {
+		oldDone := draining.Done()
+		onPacket = func(packets ...*parser.Packet) {
+			select {
+			case <-oldDone:
+			case <-s.closeChan:
+			}
+			s.onPacket(packets...)
+		}
+	}
+	c.Set(onPacket, s.onTransportClose)
 
 	s.transportMu.Lock()
 	defer s.transportMu.Unlock()
